@@ -233,6 +233,7 @@ func wireEdit(t *rapid.T, p *model.Package) (string, string, bool) {
 				nb = "int32"
 			}
 			d.Base = nb
+			d.BaseRef = nil
 			return "enum-base@" + d.Name, old + " -> " + nb + " (different encoding class)", true
 		default:
 			if d.Kind == model.DEnum {
